@@ -1,6 +1,8 @@
 /- line-protocol driver for C17.  word: string over Z P M ("-" = empty word)
    simplify <word>      -> <+|-> <word>
-   swap <word1> <word2> -> <+|-> <new1> <new2> -/
+   swap <word1> <word2> -> <+|-> <new1> <new2>
+   mat <word>           -> the four entries of the 2×2 matrix product, row-major
+   ladder <j> <0|1>     -> site:symbol list of a_j (0) / a†_j (1) -/
 import RenoVerif.Model.JW
 import RenoVerif.Driver.Util
 open RenoVerif.JW RenoVerif.Util
@@ -19,6 +21,12 @@ def step (line : String) : String :=
   | ["swap", a, b] => match parseWord a, parseWord b with
     | some a, some b => let r := swapJW a b
       (if r.1 == -1 then "- " else "+ ") ++ wordStr r.2.1 ++ " " ++ wordStr r.2.2
+    | _, _ => "bad-op"
+  | ["mat", w] => match parseWord w with
+    | some w => " ".intercalate ((wordMat w).flatMap fun r => r.map toString)
+    | none => "bad-op"
+  | ["ladder", j, d] => match j.toNat?, d.toNat? with
+    | some j, some d => " ".intercalate ((ladder j (d == 1)).map fun p => toString p.1 ++ ":" ++ wordStr [p.2])
     | _, _ => "bad-op"
   | _ => "bad-op"
 
